@@ -99,14 +99,13 @@ func needles(it secretItem) []needle {
 
 // knownClass decides from the configuration (and the flag/entry/channel a leak concerns) whether a
 // leak falls in a recorded defect class of the unchanged tree.
+//
+// Repaired classes are no longer listed, so that a leak of their kind is a violation again:
+// F31 (6ee5ae9: the debug record "loading TLS certificate" printed a data: URI given to
+// --tls-cert-file/--tls-key-file in full) and F44 (d35211c: loadRootCAs printed a --cacert-file
+// data: URI without PEM certificate in the fatal log line and the termination log).
 func knownClass(c *Case, it secretItem, channel string) string {
 	flag := it.Flag
-	// F31: configureHTTPS logs CertFile/KeyFile verbatim at debug level (http_proxy.go),
-	// so a data: URI given to --tls-cert-file/--tls-key-file is printed in full.
-	if c.Level == "debug" && channel == "startup-log" && c.TLSCert != "none" &&
-		((flag == "tls-cert-file" && strings.HasPrefix(c.TLSCert, "data")) || (flag == "tls-key-file" && strings.HasPrefix(c.TLSKey, "data"))) {
-		return "tls-data-uri-debug-log"
-	}
 	if c.Kind != "startfail" {
 		return ""
 	}
@@ -117,12 +116,6 @@ func knownClass(c *Case, it secretItem, channel string) string {
 	if flag == rejectedFlag(c) && (channel == "stderr" || channel == "termination-log") &&
 		(sourceOf(c, flag) != "flag" || !sliceFlag(flag) || it.Index == c.FaultIndex) {
 		return "rejected-flag-value-echoed"
-	}
-	// F44: loadRootCAs (tls.go) reports a --cacert-file value that holds no PEM certificate as
-	// `append certificate %q`: the data: URI is printed in the fatal log line and the termination log.
-	if c.StartFault == "cacert-not-pem" && flag == "cacert-file" && it.Index == c.FaultIndex &&
-		(channel == "startup-log" || channel == "termination-log") {
-		return "cacert-data-uri-fatal-log"
 	}
 	return ""
 }
@@ -285,6 +278,7 @@ func compareModel(ctx *core.Ctx, c *Case, k int, o *observation, p *plan) {
 		}
 	}
 	compareUpstreamURL(ctx, c, k, recs, p)
+	compareTLSLoad(ctx, c, recs, p, c.Level == "debug")
 	set := map[string]setting{}
 	for _, st := range p.Settings {
 		set[st.Flag] = st
@@ -378,6 +372,76 @@ func compareUpstreamURL(ctx *core.Ctx, c *Case, k int, recs []record, p *plan) {
 	default:
 		ctx.TraceValidated()
 	}
+}
+
+// compareTLSLoad checks the cert and key attributes of the debug record "loading TLS certificate"
+// (configureHTTPS of http_proxy.go, written when --tls-cert-file / --tls-key-file is given) against
+// Model.C19.tlsLoadAttrs, and evaluates the model's `absent` on them. expected says whether the run
+// must have the record if the model has it (a serving run at debug level); a start-up that fails may
+// end before the listener is configured.
+func compareTLSLoad(ctx *core.Ctx, c *Case, recs []record, p *plan, expected bool) {
+	raw := func(flag string) string {
+		for _, st := range p.Settings {
+			if st.Flag == flag && len(st.Raws) > 0 {
+				return st.Raws[len(st.Raws)-1]
+			}
+		}
+		return ""
+	}
+	cert, key := raw("tls-cert-file"), raw("tls-key-file")
+	var got *record
+	for i := range recs {
+		if recs[i].Msg == "loading TLS certificate" || strings.HasPrefix(recs[i].Msg, "loading TLS certificate ") {
+			got = &recs[i]
+		}
+	}
+	if got == nil && !expected {
+		return
+	}
+	ans := ctx.Model.MustAsk("C19", "tlsload", core.HexS(cert), core.HexS(key))
+	const rel = "cert/key of the debug record 'loading TLS certificate' = Model.C19.tlsLoadAttrs"
+	fs := strings.Fields(ans)
+	switch {
+	case ans == "none":
+		if got != nil {
+			ctx.Disagree(rel, c, short(got.Msg+" cert="+got.Attrs["cert"]+" key="+got.Attrs["key"], 300), "no such record")
+		}
+		return
+	case len(fs) != 3 || fs[0] != "ok":
+		ctx.Disagree(rel, c, "", ans)
+		return
+	}
+	wantCert, wantKey := string(core.MustUnHex(fs[1])), string(core.MustUnHex(fs[2]))
+	want := "cert=" + wantCert + " key=" + wantKey
+	if got == nil {
+		ctx.Disagree("start-up log has the 'loading TLS certificate' record at debug level", c, "absent", want)
+		return
+	}
+	if got.Msg != "loading TLS certificate" || got.Attrs["cert"] != wantCert || got.Attrs["key"] != wantKey {
+		ctx.Disagree(rel, c, short(got.Msg+" cert="+got.Attrs["cert"]+" key="+got.Attrs["key"], 400), short(want, 300))
+		return
+	}
+	for _, it := range p.Secrets {
+		if it.Flag != "tls-cert-file" && it.Flag != "tls-key-file" {
+			continue
+		}
+		for _, v := range []string{got.Attrs["cert"], got.Attrs["key"]} {
+			if ctx.Model.MustAsk("C19", "absent", core.HexS(it.Secret), core.HexS(v)) != "true" {
+				return // reported by the scan of the start-up log
+			}
+		}
+	}
+	style := func(v string) string {
+		switch {
+		case v == "":
+			return "unset"
+		case strings.HasPrefix(v, "data:"):
+			return "data"
+		}
+		return "path"
+	}
+	ctx.Count("tls-load-record/" + c.Kind + "/cert=" + style(cert) + ",key=" + style(key))
+	ctx.TraceValidated()
 }
 
 // ---- two runs that differ only in the secrets ----
@@ -638,6 +702,11 @@ func checkCase(ctx *core.Ctx, c *Case) {
 		}
 		if o.SlowStop {
 			ctx.Count("killed-20s-after-SIGTERM")
+		}
+		if o.PortRace {
+			served = false
+			ctx.Count("inconclusive/port-race-on-every-attempt")
+			continue
 		}
 		if o.Problem != "" {
 			served = false
